@@ -54,7 +54,8 @@ Inductive op :=
 | PScopeSpawn (z : nat) (body : nat)   (* s.spawn(body); the ScopedJoinHandle becomes the task's next handle *)
 | PAcqNew (q slot s : nat) (n : N)     (* slot := sem.acquire(n): an Acquire future kept in the shared slot table q *)
 | PAcqPoll (q slot s : nat)            (* one poll of that future by the running task (with its waker) *)
-| PAcqDrop (q slot s : nat).           (* drop of that future *)
+| PAcqDrop (q slot s : nat)            (* drop of that future *)
+| PRecvAll (ch : nat).                 (* for v in rx { .. }: the owning iterator receives until disconnection, then the Receiver is dropped *)
 
 (* result tags used in EvOp records; the harness prints the same numbers *)
 Definition TAG_SPAWN : N := 1.  Definition TAG_JOIN : N := 2.   Definition TAG_YIELD : N := 3.
@@ -158,6 +159,21 @@ Fixpoint consume_handle (ahs : list (nat * bool)) (h : nat) : list (nat * bool) 
   | (t, _) :: r, O => (t, false) :: r
   | x :: r, S h' => x :: consume_handle r h'
   end.
+
+(* `for v in rx`: IntoIter::next is a blocking recv; the loop ends at the first Err; the Receiver goes away with the iterator.
+   `n` bounds the number of messages (model fuel: Panic when exhausted, never a silent stop). *)
+Fixpoint recv_all_code (n : nat) (ch : nat) (k : code) : code :=
+  match n with
+  | O => Log 99 [] Panic
+  | S n' =>
+    chan_recv_code ch true (fun res =>
+      match res with
+      | RvOk v => Log TAG_RECV [0%N; v] (recv_all_code n' ch k)
+      | _ => Log TAG_RECV [2%N]
+               (atomic_u (fun e st => chan_drop_rx e (endpoint_kill st ch RX_SLOT) ch) (Log TAG_DROPRX [] k))
+      end)
+  end.
+Definition RECV_ALL_FUEL : nat := 24.
 
 Fixpoint comp (fuel : nat) (jt : nat) (bodies : list (list op)) (b : nat) (ctx : pctx) (fin : list (nat * bool) -> list nat -> code) (outer : list (nat * bool)) : code :=
   match fuel with
@@ -286,6 +302,9 @@ Fixpoint comp (fuel : nat) (jt : nat) (bodies : list (list op)) (b : nat) (ctx :
                 (comp f jt bodies j ctx
                    (fun gs' ahs' => drop_guards true gs' (detach_all ahs' (scope_end z (Log TAG_SCOPE [] (go r hs js gs ahs)))))
                    (gs ++ outer)))
+         | PRecvAll ch =>
+           atomic_b (fun e st => Some (e, st, endpoint_alive st ch RX_SLOT))
+             (fun alive => if alive then recv_all_code RECV_ALL_FUEL ch (go r hs js gs ahs) else Panic)
          | PAcqNew q slot o n => acq_new_code q slot o n (Log TAG_QNEW [N.of_nat slot] (go r hs js gs ahs))
          | PAcqPoll q slot o => acq_poll_code q slot o (fun res => Log TAG_QPOLL [N.of_nat slot; res] (go r hs js gs ahs))
          | PAcqDrop q slot o => acq_drop_code q slot o (Log TAG_QDROP [N.of_nat slot] (go r hs js gs ahs))
